@@ -44,19 +44,31 @@ var loadErrorExempt = map[string]string{
 // a structure. (What the receiver does with it is the subject of the rules about those
 // receivers: accumulator, check-exit, skip-implies-hook …)
 func ruleLoadErrorsPropagate(c *eng.Ctx) {
-	const rule = "load-errors-propagate"
+	// 45 sites on linux; fewer where the fuse package is not built
+	ruleErrorsConsumed(c, "load-errors-propagate", loaderCallees, loadErrorExempt, 30)
+}
+
+// ruleErrorsConsumed is the shared form of the rule above for a set of callees.
+func ruleErrorsConsumed(c *eng.Ctx, rule string, callees []string, exempt map[string]string, minSites int) {
 	n := 0
-	for _, s := range c.P.AllCallsTo(loaderCallees...) {
+	for _, s := range c.P.AllCallsTo(callees...) {
 		fn := s.Fn
-		if strings.HasSuffix(c.P.Pos(fn.Pos()), "testing.go") || strings.Contains(c.P.Pos(fn.Pos()), "/testing.go:") {
+		if strings.Contains(c.P.Pos(fn.Pos()), "testing.go:") {
 			continue // test helpers compiled into the packages
 		}
 		n++
 		c.Touch(fn)
 		callee := c.P.CalleeName(s.Call)
 		key := c.P.FnName(fn) + "→" + callee[strings.LastIndex(callee, ".")+1:]
-		if why, isEx := loadErrorExempt[key]; isEx {
+		if why, isEx := exempt[key]; isEx {
 			c.Ok(rule, key, s.Call.Pos(), "exempt: %s", why)
+			continue
+		}
+		if _, isGo := s.Call.(*ssa.Go); isGo {
+			continue // started as a goroutine: its result is collected elsewhere
+		}
+		if _, isDefer := s.Call.(*ssa.Defer); isDefer {
+			c.Bad(rule, key, s.Call.Pos(), "%s is deferred: its error is lost", callee)
 			continue
 		}
 		ev := eng.ErrResult(s.Call)
@@ -114,8 +126,7 @@ func ruleLoadErrorsPropagate(c *eng.Ctx) {
 		}
 		c.Check(ok, rule, key, s.Call.Pos(), "%s", detail)
 	}
-	// 45 on linux; fewer where the fuse package is not built
-	if n < 30 {
-		c.Unk(rule, "floor", 0, "expected at least 30 call sites of the load primitives, found %d", n)
+	if n < minSites {
+		c.Unk(rule, "floor", 0, "expected at least %d call sites, found %d", minSites, n)
 	}
 }
